@@ -361,12 +361,33 @@ func (r *rewriter) rewriteSelector(c *astutil.Cursor, n *ast.SelectorExpr) {
 			r.changed = true
 			c.Replace(sim("Pool"))
 			return
-		case "Cond", "NewCond", "Map":
+		case "Map":
+			// a plain map whose operations are scheduling points (simrt.SyncMap)
+			r.changed = true
+			c.Replace(sim("SyncMap"))
+			return
+		case "Cond", "NewCond":
 			fail(r.fset, n.Pos(), "sync."+n.Sel.Name+" is not modelled by the scheduler")
 			return
 		}
 	}
 	switch r.pkgOf(n.X) {
+	case "github.com/sourcegraph/conc/iter":
+		switch n.Sel.Name {
+		case "Iterator", "Mapper":
+			// a configured iterator starts its goroutines inside the library, where the
+			// scheduler does not see them
+			fail(r.fset, n.Pos(), "conc/iter."+n.Sel.Name+" is not supported by the simulator")
+		}
+		return
+	case "golang.org/x/sys/unix":
+		fail(r.fset, n.Pos(), "golang.org/x/sys/unix."+n.Sel.Name+": raw system calls bypass simfs and are not modelled")
+		return
+	case "syscall":
+		if rawSyscalls[n.Sel.Name] {
+			fail(r.fset, n.Pos(), "syscall."+n.Sel.Name+": raw system calls bypass simfs and are not modelled")
+		}
+		return
 	case "runtime/pprof":
 		switch n.Sel.Name {
 		case "StartCPUProfile", "StopCPUProfile":
@@ -397,7 +418,10 @@ func (r *rewriter) rewriteSelector(c *astutil.Cursor, n *ast.SelectorExpr) {
 		case name == "File":
 			st.fsCalls++
 		case name == "Stdin":
-			fail(r.fset, n.Pos(), "os.Stdin is not modelled")
+			// standard input of a simulated run is empty (as with </dev/null)
+			st.fsCalls++
+			r.changed = true
+			c.Replace(call(sim("StdinFile")))
 			return
 		case osUnsupported[name]:
 			fail(r.fset, n.Pos(), "os."+name+" is not modelled by simfs")
@@ -462,6 +486,20 @@ func (r *rewriter) rewriteCall(c *astutil.Cursor, n *ast.CallExpr) {
 				st.iterMaps++
 				r.changed = true
 				c.Replace(call(sim("IterForEach"), r.site(n.Pos()), n.Args[0], n.Args[1], sel))
+				return
+			}
+		case "MapErr":
+			if len(n.Args) == 2 {
+				st.iterMaps++
+				r.changed = true
+				c.Replace(call(sim("IterMapErr"), r.site(n.Pos()), n.Args[0], n.Args[1], sel))
+				return
+			}
+		case "ForEachIdx":
+			if len(n.Args) == 2 {
+				st.iterMaps++
+				r.changed = true
+				c.Replace(call(sim("IterForEachIdx"), r.site(n.Pos()), n.Args[0], n.Args[1], sel))
 				return
 			}
 		}
@@ -533,6 +571,14 @@ func (r *rewriter) rewriteCall(c *astutil.Cursor, n *ast.CallExpr) {
 		n.Args[0] = call(sim("Task"), r.site(n.Pos()), n.Args[0])
 	}
 }
+
+// file-system and process calls of package syscall that would act on the real
+// system instead of the simulated one (constants, Errno and signal names are fine)
+var rawSyscalls = map[string]bool{"Open": true, "Openat": true, "Creat": true, "Read": true, "Write": true, "Pread": true, "Pwrite": true,
+	"Close": true, "Fsync": true, "Fdatasync": true, "Rename": true, "Renameat": true, "Unlink": true, "Unlinkat": true, "Link": true,
+	"Symlink": true, "Mkdir": true, "Rmdir": true, "Ftruncate": true, "Truncate": true, "Chmod": true, "Fchmod": true, "Stat": true,
+	"Lstat": true, "Fstat": true, "Syscall": true, "Syscall6": true, "RawSyscall": true, "RawSyscall6": true, "Mmap": true, "Dup": true,
+	"Dup2": true, "Kill": true, "Exec": true, "ForkExec": true, "Setrlimit": true, "Flock": true, "Sendfile": true}
 
 func define(name string, x ast.Expr) ast.Stmt {
 	return &ast.AssignStmt{Lhs: []ast.Expr{ast.NewIdent(name)}, Tok: token.DEFINE, Rhs: []ast.Expr{x}}
